@@ -80,6 +80,67 @@ def run(ctx: Ctx):
         raise Machinery("too few vectors")
     cl.record_random(ctx, ev, meta, 300 if ctx.quick else 4000,
                      [97, 65, 44, 59, 58, 61, 39, 94, 32, 92, 37, 50, 67, 66, 51, 53], "C08")
+    # a parameter map is written as what it holds NOW: serialise, edit in place (through the mapping interface and through
+    # the list objects it holds), serialise again -- alone, in a content line and on a property of a component
+    from icalendar import Event as _Ev
+    from icalendar.parser import Contentline as _CL
+    from icalendar.prop import vText as _VT
+    rnd_e = __import__("random").Random(ctx.seed + 11)
+    words = ["a", "b,c", "d;e", "f:g", "h i", "J", "k^l", "", "mailto:m@example.com", "\u00e9"]
+    for i in range(60 if ctx.quick else 600):
+        P = Parameters()
+        for nm in rnd_e.sample(["MEMBER", "cn", "X-Q", "Delegated-To", "p"], rnd_e.randint(1, 3)):
+            P[nm] = [rnd_e.choice(words) for _ in range(rnd_e.randint(2, 3))] if rnd_e.random() < 0.6 else rnd_e.choice(words)
+        holder = _VT("v")
+        holder.params = P
+        e_ = _Ev()
+        e_["X-A"] = holder
+        routes = [("Parameters", lambda: P.to_ical().decode("utf-8")),
+                  ("Parameters unsorted", lambda: P.to_ical(sorted=False).decode("utf-8")),
+                  ("Contentline", lambda: str(_CL.from_parts("X-A", P, _VT("v"))).rsplit(":v", 1)[0].partition(";")[2]),
+                  ("Event", lambda: str(e_.content_lines()[1]).rsplit(":v", 1)[0].partition(";")[2])]
+        for _r, f in routes:
+            f()                                             # first serialisation, discarded
+        edits = []
+        for _ in range(rnd_e.randint(1, 3)):
+            k = rnd_e.choice(list(P.keys()))
+            v = P[k]
+            op = rnd_e.choice(["append", "setitem0", "reverse", "pop", "extend", "assign", "del", "update", "setdefault"])
+            if op in ("append", "setitem0", "reverse", "pop", "extend") and not isinstance(v, list):
+                op = "assign"
+            edits.append(op)
+            if op == "append":
+                v.append(rnd_e.choice(words))
+            elif op == "setitem0":
+                v[0] = rnd_e.choice(words)
+            elif op == "reverse":
+                v.reverse()
+            elif op == "pop" and len(v) > 2:
+                v.pop()
+            elif op == "extend":
+                v += [rnd_e.choice(words)]
+            elif op == "assign":
+                P[k.swapcase()] = rnd_e.choice(words)
+            elif op == "del" and len(P) > 1:
+                del P[k.lower()]
+            elif op == "update":
+                P.update({"x-new": rnd_e.choice(words)})
+            elif op == "setdefault":
+                P.setdefault("X-DEF", [rnd_e.choice(words), "z"])
+        now = cl.alpha_params(P)
+        ctx.case(("edited", i, tuple(edits)), True)
+        for rname, f in routes:
+            wire = f()
+            if wire is None:
+                continue
+            if rname.endswith("unsorted") or rname == "Parameters":
+                pass
+            try:
+                back = {"ok": True, "ps": cl.alpha_params(Parameters.from_ical(wire))}
+            except ValueError:
+                back = {"ok": False}
+            ev.append({"k": "paramsA", "ps": now, "wire": cl.L(wire), "back": back})
+            meta.append({"c": {"ps": now}, "path": f"{rname} after in-place edits {edits}"})
     for idx, clause, known in ctx.validate_trace("Trace_ContentLine", ev, cfg_text(spec="Spec"), chunk=4000, timeout=3000):
         if clause.startswith("P:C08"):
             case = dict(meta[idx]); case["impl_equal"] = known
